@@ -97,15 +97,18 @@ def run_property(prop, tier, seed, args):
     # fail), or already fail an obligation
     canary_idx = [i for i in indices if all_units[i].canary]
     canary_bad = []
+    vacuity_unconfirmed = []
     ncanary_ok = 0
     for i, c in zip(indices, results):
         if i not in canary_idx:
             continue
         hit = c.get("exit_sat") or any(a["sat"] > 0 for k, a in c["obs"].items())
-        if c["status"] == "ok" and not hit:
-            canary_bad.append(all_units[i].name)
+        if c["status"] == "ok" and not hit and not c.get("exit_unknown"):
+            canary_bad.append(all_units[i].name)       # every exit reached has a contradictory path condition (or none was reached)
         elif hit:
             ncanary_ok += 1
+        elif c.get("exit_unknown"):
+            vacuity_unconfirmed.append(all_units[i].name)
 
     known = load_known()
     failures, undecided = [], []
@@ -214,7 +217,7 @@ def run_property(prop, tier, seed, args):
     wall = time.time() - t0
     if not args.no_evidence and args.only is None:
         write_evidence(mod, prop, tier, seed, nobl, ndis, functions, samples, bounded, violations, known_lines,
-                       undecided, solver_ms, backends, wall, ncanary_ok, canary_bad, sorted(known_obl))
+                       undecided, solver_ms, backends, wall, ncanary_ok, canary_bad, sorted(known_obl), vacuity_unconfirmed)
 
     for line in known_lines:
         print(line)
@@ -245,7 +248,7 @@ def run_property(prop, tier, seed, args):
 
 
 def write_evidence(mod, prop, tier, seed, nobl, ndis, functions, samples, bounded, violations, known_lines,
-                   undecided, solver_ms, backends, wall, ncanary_ok, canary_bad, known_obl=()):
+                   undecided, solver_ms, backends, wall, ncanary_ok, canary_bad, known_obl=(), vacuity_unconfirmed=()):
     level = getattr(mod, "LEVEL", "proof")
     cov = {
         # obligations that fail exactly as a listed known finding are reported separately (they are not discharged and
@@ -267,6 +270,7 @@ def write_evidence(mod, prop, tier, seed, nobl, ndis, functions, samples, bounde
         "rule": "obligations are distinct by name <unit>#<kind>@<anchor>; bounded stand-ins count distinct inputs",
         "canaries_failed_as_expected": ncanary_ok,
         "canaries_vacuous": canary_bad,
+        "vacuity_check_undecided_by_both_solvers": list(vacuity_unconfirmed),
         "known_findings_reported": known_lines,
         "undecided": [list(u) for u in undecided],
         "explanation": getattr(mod, "EXPLANATION", ""),
